@@ -20,6 +20,9 @@ def attr_history_independence(rep):
             raise RuntimeError('c13_attr_runner failed: ' + r.stderr[-1500:])
         outs[mode] = json.loads(r.stdout)
     n = 0
+    for a in outs['pristine']:
+        if a[0] == '<released>' and a[4] != 'ok':
+            rep.finding_or_violation('C13:released:' + a[1], '%s: the element is not on its own again (%s)' % (a[1], a[6]), {'probe': a[1], 'observed': a[6]})
     for a, b in zip(outs['pristine'], outs['after']):
         n += 1
         if a != b:
